@@ -413,6 +413,28 @@ Section Sound.
   End Roundtrip.
 End Sound.
 
+(* --- sessions: the n-th verdict depends on the n-th message only ------------------------------- *)
+Theorem session_stateless K cr (pre1 post1 pre2 post2 : list sig_call) (c : sig_call) :
+  nth_error (sig_session K cr (pre1 ++ c :: post1)) (length pre1) = Some (sig_verdict K cr c) /\
+  nth_error (sig_session K cr (pre1 ++ c :: post1)) (length pre1) =
+  nth_error (sig_session K cr (pre2 ++ c :: post2)) (length pre2).
+Proof.
+  assert (H : forall pre post, nth_error (sig_session K cr (pre ++ c :: post)) (length pre) = Some (sig_verdict K cr c)).
+  { intros pre post. unfold sig_session. rewrite map_app. cbn [map].
+    rewrite nth_error_app2 by (rewrite map_length; lia).
+    rewrite map_length, Nat.sub_diag. reflexivity. }
+  split; [apply H|]. rewrite !H. reflexivity.
+Qed.
+
+(* in particular a forged bid is refused however often the genuine one was verified before *)
+Corollary session_forgery_refused K cr (genuine forged : bid) (n : nat) e :
+  verify_bid K cr forged = Err e ->
+  nth_error (sig_session K cr (repeat (VBid genuine) n ++ [VBid forged])) n = Some (Err e).
+Proof.
+  intros H. pose proof (session_stateless K cr (repeat (VBid genuine) n) [] [] [] (VBid forged)) as [E _].
+  rewrite repeat_length in E. rewrite E. cbn [sig_verdict]. rewrite H. reflexivity.
+Qed.
+
 (* --- non-vacuity: the premises on the crypto oracle are satisfiable ---------------------------- *)
 Definition toy_crypto : crypto :=
   {| recover := fun _ _ => Ok [4];
